@@ -2,7 +2,7 @@ from props import KERNEL, HARNESS, TRANSLATOR, CORR
 
 CONFIG = {
     "props_file": "props/C19.v",
-    "coq_targets": ["props/C19.vo", "model/BclFmtCorr.vo", "proofs/BclFmtGenProofs.vo", "proofs/BclPanicSitesProofs.vo", "proofs/BclFmtGenAllProofs.vo"],
+    "coq_targets": ["props/C19.vo", "model/BclFmtCorr.vo", "proofs/BclFmtGenProofs.vo", "proofs/BclPanicSitesProofs.vo", "proofs/BclFmtGenAllProofs.vo", "proofs/BclFmtGenAll2Proofs.vo"],
     "runner": "run_bcl",
     "gens": ["gen_bcl"],
     "level": "proof",
